@@ -102,17 +102,25 @@ func (vfs *BasePathFS) FromLinkError(err error) error {
 // ToBasePath transforms a BasePathFS path to an internal path.
 // When the base path is "/base/path", ToBasePath("/tmp") returns "/base/path/tmp".
 func (vfs *BasePathFS) ToBasePath(path string) string {
-	if path == "" || path == "/" {
+	if path == "/" {
 		return vfs.basePath
 	}
 
-	if vfs.IsAbs(path) {
-		vl := avfs.VolumeNameLen(vfs, path)
-
-		return vfs.basePath + path[vl:]
+	if !vfs.IsAbs(path) {
+		// a relative path is relative to the current directory of this file system.
+		curDir, _ := vfs.Getwd()
+		path = vfs.Join(curDir, path)
 	}
 
-	return path
+	// Clean resolves the "." and ".." elements, ".." never goes above the root.
+	path = vfs.Clean(path)
+	vl := avfs.VolumeNameLen(vfs, path)
+
+	if len(path) == vl+1 {
+		return vfs.basePath
+	}
+
+	return vfs.basePath + path[vl:]
 }
 
 // Name returns the name of the fileSystem.
